@@ -306,6 +306,7 @@ func init() {
 			{Name: "readers", Race: true, QShards: 2, TShards: 4, Run: c08Readers},
 			{Name: "large", QShards: 2, TShards: 8, Run: func(c *Ctx) { alignLarge(c, alignOpts{validity: true}, c08Gen) }},
 			{Name: "parallel", Race: true, Run: alignParallel},
+			{Name: "manycalls", QShards: 4, TShards: 6, Run: func(c *Ctx) { alignManyCalls(c, alignOpts{validity: true, local: true}, c08Gen) }},
 		},
 	})
 	register(&Property{
@@ -325,6 +326,7 @@ func init() {
 			{Name: "tables", Run: c09Tables},
 			{Name: "reuse", TShards: 4, Run: func(c *Ctx) { alignReuse(c, alignOpts{validity: true, optimal: true}, 1) }},
 			{Name: "large", QShards: 2, TShards: 8, Run: func(c *Ctx) { alignLarge(c, alignOpts{validity: true, optimal: true}, c09Gen) }},
+			{Name: "manycalls", QShards: 4, TShards: 6, Run: func(c *Ctx) { alignManyCalls(c, alignOpts{validity: true, optimal: true, local: true}, c09Gen) }},
 		},
 	})
 	register(&Property{
@@ -342,6 +344,7 @@ func init() {
 			{Name: "witnesses", Run: c10Witnesses},
 			{Name: "reuse", TShards: 4, Run: func(c *Ctx) { alignReuse(c, alignOpts{validity: true, optimal: true, knownC10: true}, 2) }},
 			{Name: "large", QShards: 2, TShards: 8, Run: func(c *Ctx) { alignLarge(c, alignOpts{validity: true, optimal: true, knownC10: true}, c10Gen) }},
+			{Name: "manycalls", QShards: 4, TShards: 6, Run: func(c *Ctx) { alignManyCalls(c, alignOpts{validity: true, optimal: true, knownC10: true, local: true}, c10Gen) }},
 		},
 	})
 }
@@ -381,10 +384,7 @@ func c08Random(c *Ctx) {
 	for i := 0; i < n; i++ {
 		c.Case(int64(i), func(k *K) {
 			r := k.Rand()
-			alpha := []byte("acgt")[:2+r.IntN(3)]
-			if r.IntN(6) == 0 {
-				alpha = []byte{0, 254, 'a', '\n'}[:2+r.IntN(3)] // extreme byte values (255 is the gap symbol)
-			}
+			alpha := alignAlphabet(r)
 			m, local := c08Gen(r, i, alpha)
 			if r.IntN(5) == 0 {
 				m = genAlignMatrix(r, matSpec{alpha: alpha, gapOpen: pick(r, []float64{0, -0.5, -2.25}), gapSign: -1, fraction: true})
@@ -477,7 +477,7 @@ func c09Random(c *Ctx) {
 	for i := 0; i < n; i++ {
 		c.Case(int64(i), func(k *K) {
 			r := k.Rand()
-			alpha := []byte("acgt")[:2+r.IntN(3)]
+			alpha := alignAlphabet(r)
 			m, local := c09Gen(r, i, alpha)
 			a, b := relatedPair(r, alpha, 60)
 			if r.IntN(40) == 0 {
@@ -704,7 +704,7 @@ func c10Random(c *Ctx) {
 	for i := 0; i < n; i++ {
 		c.Case(int64(i), func(k *K) {
 			r := k.Rand()
-			alpha := []byte("acgt")[:2+r.IntN(3)]
+			alpha := alignAlphabet(r)
 			m, _ := c10Gen(r, i, alpha)
 			a, b := relatedPair(r, alpha, 60)
 			if r.IntN(40) == 0 {
@@ -835,6 +835,75 @@ func alignLarge(c *Ctx, o alignOpts, gen func(r *rand.Rand, mi int, alpha []byte
 			alignCase(k, a, b, m, oo)
 			k.Count("large_table_cases", 1)
 			k.Nontrivial([]byte(fmt.Sprint(sh)), a[:min(len(a), 64)], []byte(matrixString(m)))
+		})
+	}
+}
+
+// alignAlphabet: the usual letters, the extreme byte values (0 first, so that
+// sequences begin with a NUL; 255 is the gap symbol), or a fresh draw from all
+// 255 byte values — over a long run of calls in one process every character is
+// then used at irregular intervals, with a different matrix each time.
+func alignAlphabet(r *rand.Rand) []byte {
+	switch r.IntN(6) {
+	case 0:
+		return []byte{0, 254, 'a', '\n'}[:2+r.IntN(3)]
+	case 1, 2:
+		n := 2 + r.IntN(3)
+		perm := r.Perm(255)
+		out := make([]byte, n)
+		for i := range out {
+			out[i] = byte(perm[i])
+		}
+		return out
+	}
+	return []byte("acgt")[:2+r.IntN(3)]
+}
+
+// alignManyCalls: long histories of small calls in ONE process, in which
+// characters come back after exactly 2^8 / 2^16 calls (and one call more or
+// less) with a different matrix each time — a memo keyed by character whose
+// generation counter or age wraps goes stale exactly then. Every call is
+// checked (re-scoring; optimum when the matrix has no gap-open cost).
+func alignManyCalls(c *Ctx, o alignOpts, gen func(r *rand.Rand, mi int, alpha []byte) (align.SubstitutionMatrix, bool)) {
+	periods := []int{255, 256, 257}
+	if c.Thorough {
+		periods = append(periods, 65535, 65536, 65537)
+	} else {
+		periods = append(periods, 65536)
+	}
+	for pi, period := range periods {
+		c.Case(int64(pi), func(k *K) {
+			r := k.Rand()
+			const rare = 50 // characters 200..249 come back once per period; 0..199 fill the other calls
+			spacing := max(1, period/rare)
+			calls := 3*period + 10
+			k.Input("period", period)
+			k.Input("calls", calls)
+			for t := 0; t < calls && !k.Failed(); t++ {
+				slot := t % period
+				var alpha []byte
+				if slot%spacing == 0 && slot/spacing < rare {
+					alpha = []byte{byte(200 + slot/spacing), byte(t % 200)}
+				} else {
+					alpha = []byte{byte(t % 200), byte((t*7 + 3) % 200)}
+					if alpha[0] == alpha[1] {
+						alpha[1] = byte((int(alpha[1]) + 1) % 200)
+					}
+				}
+				m, local := gen(r, 0, alpha)
+				a := []byte{alpha[0], alpha[1], alpha[0], alpha[0]}[:2+t%3]
+				b := []byte{alpha[0], alpha[0], alpha[1], alpha[0]}[:1+(t/3)%4]
+				oo := o
+				oo.local = local && o.local
+				k.Input("call", t)
+				k.Input("a", a)
+				k.Input("b", b)
+				k.Input("matrix", matrixDesc(m))
+				alignCase(k, a, b, m, oo)
+			}
+			k.Count("long_call_histories", 1)
+			k.Count("calls_in_long_histories", int64(calls))
+			k.Nontrivial([]byte(fmt.Sprint("manycalls", period)))
 		})
 	}
 }
